@@ -190,7 +190,7 @@ func runC16(c *Ctx) error {
 	}
 	np, nperm := 25, 12
 	if c.Thorough() {
-		np, nperm = 600, 40
+		np, nperm = 1500, 60
 	}
 	for i := 0; i < np; i++ {
 		ds := c16Package(r)
